@@ -9,7 +9,9 @@ purpose-built object per flag, never a history.
   (`Δ°C` unreadable)?  unit data carried or recomputed from the restored table (probe: a unit
   created BEFORE `registry.modify`)?  is the restored dimension object the singleton (`is`), for
   a canonical and for a non-canonical original?  same `lut` dict?  user-added / MODIFIED default /
-  REMOVED default symbols in the restored table?  identity of the dimension objects of user rows
+  REMOVED default symbols in the restored table?  default rows re-declared with ONE field changed
+  (value, dimensions, offset -> keepsModifiedDefault; the prefixable flag only -> keepsFlagOnlyDefault;
+  tex only -> note `texOnlyKept`)?  identity of the dimension objects of user rows
   and of default rows?  `registry.unit_system`?
 
 Also: the flags under pickle protocols 2..5 must coincide (emitted as `pickleProtocolsAgree`),
@@ -97,7 +99,7 @@ def generate(X):
             f"  (.{r}, {{\n      keepsValues := {b(f['keepsValues'])}, keepsDtype := {b(f['keepsDtype'])}, keepsClass := {b(f['keepsClass'])},\n"
             f"      unitSame := {b(f['unitSame'])}, unitByDisplayStr := {b(f['unitByDisplayStr'])}, unitDataCarried := {b(f['unitDataCarried'])},\n"
             f"      unitCanon := ⟨{b(f['unitCanonOnCanon'])}, {b(f['unitCanonOnNon'])}⟩,\n"
-            f"      regSame := {b(f['regSame'])}, keepsAdded := {b(f['keepsAdded'])}, keepsModifiedDefault := {b(f['keepsModifiedDefault'])}, keepsRemoved := {b(f['keepsRemoved'])},\n"
+            f"      regSame := {b(f['regSame'])}, keepsAdded := {b(f['keepsAdded'])}, keepsModifiedDefault := {b(f['keepsModifiedDefault'])}, keepsFlagOnlyDefault := {b(f['keepsFlagOnlyDefault'])}, keepsRemoved := {b(f['keepsRemoved'])},\n"
             f"      userRowCanon := ⟨{b(f['userRowCanonOnCanon'])}, {b(f['userRowCanonOnNon'])}⟩, dfltRowCanon := ⟨{b(f['dfltRowCanonOnCanon'])}, {b(f['dfltRowCanonOnNon'])}⟩,\n"
             f"      keepsUnitSystem := {b(f['keepsUnitSystem'])} }})"
         )
